@@ -357,7 +357,7 @@ func verifExplainBoth(f *sfnt.Font, which int) {
 // of subtable alternatives of GPOS 1, GPOS 2, GPOS 3, GPOS 4, GSUB 5 and GSUB 6, with symbolic lookup flags and
 // a few symbolic values, survives explain -> parse.
 func VerifH_C19_multi() {
-	kind := verifChoose("kind", 6)
+	kind := verifChoose("kind", 8)
 	flags := gtab.LookupFlags(verifU16("flags"))
 	verifAssume(flags&^(gtab.IgnoreMarks|gtab.IgnoreLigatures|gtab.IgnoreBaseGlyphs) == 0)
 	f := verifFont19(true, true)
@@ -398,6 +398,20 @@ func VerifH_C19_multi() {
 		typ, gpos = 5, false
 		alts = []gtab.Subtable{&gtab.SeqContext1{Cov: coverage.Table{1: 0}, Rules: [][]*gtab.SeqRule{{{Input: []glyph.ID{2}, Actions: act}}}},
 			&gtab.SeqContext3{Input: []coverage.Set{{1: true, 2: true}, {3: true}}, Actions: act}}
+	case 6: // two class based chained context subtables, each with backtrack, input and lookahead classes
+		typ, gpos = 6, false
+		cc := func(b, i, l glyph.ID) gtab.Subtable {
+			return &gtab.ChainedSeqContext2{Cov: coverage.Table{i: 0}, Backtrack: classdef.Table{b: 1}, Input: classdef.Table{i: 1}, Lookahead: classdef.Table{l: 1},
+				Rules: [][]*gtab.ChainedClassSeqRule{nil, {{Backtrack: []uint16{1}, Lookahead: []uint16{1}, Actions: act}}}}
+		}
+		alts = []gtab.Subtable{cc(1, 2, 3), cc(4, 5, 6)}
+	case 7: // two class based context subtables
+		typ, gpos = 5, false
+		sc := func(a, b glyph.ID) gtab.Subtable {
+			return &gtab.SeqContext2{Cov: coverage.Table{a: 0}, Input: classdef.Table{a: 1, b: 2},
+				Rules: [][]*gtab.ClassSeqRule{nil, {{Input: []uint16{2}, Actions: act}}, nil}} // one rule set per class (normal form)
+		}
+		alts = []gtab.Subtable{sc(1, 2), sc(3, 4)}
 	default:
 		typ, gpos = 6, false
 		alts = []gtab.Subtable{&gtab.ChainedSeqContext1{Cov: coverage.Table{1: 0}, Rules: [][]*gtab.ChainedSeqRule{{{Backtrack: []glyph.ID{3}, Input: []glyph.ID{2}, Lookahead: []glyph.ID{4}, Actions: act}}}},
